@@ -1,3 +1,5 @@
 pub mod der_writer;
 pub mod medium;
 pub mod rng;
+pub mod serde_fmt;
+pub mod sink;
